@@ -365,7 +365,7 @@ type c18Witness struct {
 func init() {
 	core.Register(&core.Check{
 		ID:   "C18",
-		Rule: "types: 17 hand-written named types (self- and mutually recursive through pointers, slices and maps of pointers, embedded structs with and without a JSON-name collision, embedded pointer, time/bytes/sized integers/double pointers, a ...Ref-shaped type, slices and maps of pointers as the root type) and PRNG-built types from the grammar {bool, all sized ints/uints, floats, string, []byte, time.Time, *T, **T, []T, map[string]T, struct with json tags / omitempty / '-' / anonymous embedded struct} to depth 4; values: a reflection filler drawing boundary values (min/max of every integer kind, extreme floats, empty and non-empty non-nil slices and maps, nil and non-nil pointers, zero and non-zero times), several per type; option sets: default, UseAllExportedFields, CreateComponentSchemas (3 variants), ThrowErrorOnCycle. For each: generate the schema, put the returned components into a document, resolve it with the real loader, validate json.Marshal(value). Distinct = (type, options, encoded value); non-trivial = the type has at least one composite constructor. Static types include instantiated generic types (recursive, nested) and an outer field declared before an embedded struct of the same JSON name.",
+		Rule: "types: 17 hand-written named types (self- and mutually recursive through pointers, slices and maps of pointers, embedded structs with and without a JSON-name collision, embedded pointer, time/bytes/sized integers/double pointers, a ...Ref-shaped type, slices and maps of pointers as the root type) and PRNG-built types from the grammar {bool, all sized ints/uints, floats, string, []byte, time.Time, *T, **T, []T, map[string]T, struct with json tags / omitempty / '-' / anonymous embedded struct} to depth 4; values: a reflection filler drawing boundary values (min/max of every integer kind, extreme floats, empty and non-empty non-nil slices and maps, nil and non-nil pointers, zero and non-zero times), several per type; option sets: default, UseAllExportedFields, CreateComponentSchemas (3 variants), ThrowErrorOnCycle. For each: generate the schema, put the returned components into a document, resolve it with the real loader, validate json.Marshal(value). Distinct = (type, options, encoded value); non-trivial = the type has at least one composite constructor. Static types include instantiated generic types (recursive, nested) and an outer field declared before an embedded struct of the same JSON name. Also: the ,string option behind two and three pointer levels; named map and list types that contain themselves (directly and through each other).",
 		Assumptions: []string{
 			"values whose top level encodes as null (nil pointer root) are outside the statement and skipped; slices and maps are never nil",
 			"ThrowErrorOnCycle may legitimately return an error for recursive types",
